@@ -1,7 +1,7 @@
 (* C04 — Connection filtering rules: first match wins, fail closed, enforced early. *)
 From Coq Require Import List NArith Bool.
 From TT Require Import Lib.BytesL Model.ConnectPolicy Model.Rules Spec.RulesDoc Generated.RulesFacts
-  Proofs.RulesProofs Model.TlsDemux Model.FrontDoor Proofs.FrontDoorProofs.
+  Proofs.RulesProofs Model.RulesLoader Proofs.RulesLoaderProofs Model.TlsDemux Model.FrontDoor Proofs.FrontDoorProofs.
 Import ListNotations.
 Open Scope N_scope.
 
@@ -37,6 +37,23 @@ Theorem malformed_fields_never_match :
   forall r ip cr, r_cidr r = CBad \/ r_pat r = PBad -> rule_matches r ip cr = false.
 Proof. exact bad_fields_never_match. Qed.
 Print Assumptions malformed_fields_never_match.
+
+(* the rules file (Model/RulesLoader.v, settings.rs deserialize_rules): the list of rules may be spelled as [[rule]] tables or as
+   an array of inline tables, both load to the same rules; file order is kept; a condition of the wrong TOML type makes a rule that
+   matches nothing (given that rules.rs parses "?" neither as a network nor as hex, which the process-level cases exercise) *)
+Theorem rules_file_is_read_as_written :
+  (forall l, load RULES_INLINE_TABLES_READ (RArray (map Some l)) = load RULES_INLINE_TABLES_READ (RTables l))
+  /\ (forall a b, load RULES_INLINE_TABLES_READ (RTables (a ++ b))
+                 = load RULES_INLINE_TABLES_READ (RTables a) ++ load RULES_INLINE_TABLES_READ (RTables b))
+  /\ (forall pc pp t x ip cr,
+        pc QUESTION = CBad -> pp QUESTION = PBad -> load_table t = Some x ->
+        t_cidr t = Some TOther \/ t_prefix t = Some TOther -> rule_matches (to_rule pc pp x) ip cr = false)
+  /\ RULES_LOADER_AS_MODELLED = true.
+Proof.
+  split; [exact spelling_does_not_matter_proof|]. split; [exact load_in_file_order_proof|].
+  split; [exact wrong_type_never_matches_proof|exact eq_refl].
+Qed.
+Print Assumptions rules_file_is_read_as_written.
 
 (* Full: an IPv4 client gets the same verdict whether its peer address is seen as a.b.c.d or,
    on a dual-stack listener, as ::ffff:a.b.c.d -- for every rule list and client random.
